@@ -5,4 +5,19 @@ import (
 	"verifharness/pipeline"
 )
 
-func main() { emit.Main("C13", pipeline.RunFor("C13")) }
+func main() {
+	// the dynmap stream re-executes this binary for every history
+	if pipeline.ChildMain() {
+		return
+	}
+	emit.Main("C13", func(seed int64, tier, outDir string) (*emit.Summary, error) {
+		sum, err := pipeline.RunFor("C13")(seed, tier, outDir)
+		if err != nil {
+			return nil, err
+		}
+		if err := pipeline.AddDynmap(sum, seed, tier, outDir); err != nil {
+			return nil, err
+		}
+		return sum, nil
+	})
+}
